@@ -68,7 +68,7 @@ def gen_case(rng):
     rng.shuffle(q)
     return {'tree': tj, 'NG': NG, 'table': table, 'qgenes': q, 'Nper': rng.randint(1, 3),
             'P': rng.randint(1, 3), 'behemoth': rng.choice([1, 2, 1000000]),
-            'override': rng.random() < 0.3}
+            'override': rng.random() < 0.3, 'kid_order': rng.choice([0, rng.randint(1, 10 ** 6), rng.randint(1, 10 ** 6), rng.randint(1, 10 ** 6)])}
 
 
 def write_files(c, d, scheme):
@@ -77,6 +77,41 @@ def write_files(c, d, scheme):
     leaf = tj['hier'][-1]
     tree = taxo.dict_from_tree(tj, nm)
     leaves = sorted(nm.node(leaf, n) for n in tj['nodes'][-1])
+    if c.get('kid_order', 0):
+        # children listed in another order than the alphabetical one (e.g. order of first appearance in a table): the
+        # pairs below a parent are then asked for in an order that is neither sorted nor contiguous.  Among 60 orders
+        # the first one is taken under which some parent asks for rows i_1..i_n with i_n - i_1 = n - 1 that are NOT
+        # one block (the package's own pair enumeration is used to pick the input, never to judge the output).
+        import copy as _copy
+        from cell_type_mapper.taxonomy.taxonomy_tree import TaxonomyTree
+        pos = {}
+        for i_, a_ in enumerate(leaves):
+            for b_ in leaves[i_ + 1:]:
+                pos[(a_, b_)] = len(pos)
+        base_tree, pick = tree, None
+        for attempt in range(60):
+            r_ = random.Random(c['kid_order'] + attempt)
+            t_ = _copy.deepcopy(base_tree)
+            for lv in t_['hierarchy'][:-1]:
+                for k_ in t_[lv]:
+                    r_.shuffle(t_[lv][k_])
+                items = list(t_[lv].items())
+                r_.shuffle(items)
+                t_[lv] = dict(items)
+            if pick is None:
+                pick = t_
+            try:
+                tt = TaxonomyTree(data=_copy.deepcopy(t_))
+                for par in tt.all_parents:
+                    idx = [pos[(x[1], x[2])] for x in tt.leaves_to_compare(par)]
+                    if len(idx) > 1 and idx[-1] - idx[0] == len(idx) - 1 and idx != list(range(idx[0], idx[0] + len(idx))):
+                        pick = t_
+                        raise StopIteration
+            except StopIteration:
+                break
+            except Exception:                      # noqa
+                pass
+        tree = pick
     genes = [build.gene_name(g, scheme) for g in range(1, c['NG'] + 1)]
     stats = os.path.join(d, 'stats.h5')
     build.write_stats(stats, tree, {l: [1.0] * c['NG'] for l in leaves}, genes,
